@@ -1,5 +1,5 @@
 # C13 - read-only invocations never modify the device
-import json, os, hashlib, shutil, concurrent.futures
+import json, os, hashlib, shutil, struct, concurrent.futures
 import e2v, extfmt, corrupt
 from props import c03
 from jbd2enc import *
@@ -105,6 +105,12 @@ def invocations(src, img, undo):
         ("e2undo -n", [T("misc/e2undo"), "-n", undo, img], True),
         ("e2undo -n (incomplete undo record)", [T("misc/e2undo"), "-n", undo + ".unfinished", img], True),
         ("mke2fs -n", [T("misc/mke2fs"), "-n", "-t", "ext4", img], False),   # may open read-write, must not write
+        # options that are applied after the command line is parsed must not undo -n
+        ("mke2fs -n -E discard", [T("misc/mke2fs"), "-n", "-t", "ext4", "-E", "discard", img], False),
+        ("mke2fs -n -E discard,lazy_itable_init=0 -F", [T("misc/mke2fs"), "-n", "-F", "-t", "ext3", "-E", "discard,lazy_itable_init=0,lazy_journal_init=0,root_owner=1:1", "-L", "x", img], False),
+        ("mke2fs -n -S", [T("misc/mke2fs"), "-n", "-S", "-t", "ext4", img], False),
+        ("tune2fs -l -O (listing wins)", [T("misc/tune2fs"), "-l", img], True),
+        ("e2fsck -n -D", [T("e2fsck/e2fsck"), "-fn", "-E", "journal_only", img], True),
     ]
 
 
@@ -184,12 +190,64 @@ def run(res, replay=None):
                 os.unlink(img + suffix)
         if sha(img) != before:
             bad.append({"state": label, "invocation": "(whole sequence)", "why": "image changed"})
+    # ---- filesystems with an EXTERNAL journal device: neither file may change
+    XU = "1db3f677-6832-4adb-bafc-8e4059c30a34"
+    T = lambda p_: os.path.join(src, p_)
+    for jstate in ("clean", "journal error recorded (s_errno)", "needs recovery"):
+        for bs in ((1024,) if tier == "quick" else (1024, 4096)):
+            fsimg, jimg, dat = os.path.join(WORK, "xj_fs.img"), os.path.join(WORK, "xj_jnl.img"), os.path.join(WORK, "xj_dat")
+            for f in (fsimg, jimg):
+                if os.path.exists(f):
+                    os.unlink(f)
+            e2v.sh([T("misc/mke2fs"), "-q", "-F", "-b", str(bs), "-O", "journal_dev", "-U", XU, jimg, "4096"], env=env, timeout=120)
+            e2v.sh([T("misc/mke2fs"), "-q", "-F", "-t", "ext4", "-b", str(bs), "-O", "^has_journal", fsimg, "16384" if bs == 1024 else "8192"], env=env, timeout=120)
+            e2v.sh([T("debugfs/debugfs"), "-w", "-f", "-", fsimg], input=("feature has_journal\nssv journal_dev 0x9999\nssv journal_uuid %s\n" % XU).encode(), env=env, timeout=60)
+            rc0, _ = e2v.sh([T("e2fsck/e2fsck"), "-fy", "-j", jimg, fsimg], env=env, timeout=120)
+            if rc0 & ~1:
+                bad.append({"state": "external journal", "invocation": "(setup)", "why": "could not set up the filesystem/journal pair: e2fsck exit %d" % rc0})
+                continue
+            jsb = (2 if bs == 1024 else 1) * bs
+            if jstate.startswith("journal error"):
+                with open(jimg, "r+b") as f:
+                    f.seek(jsb + 0x20)
+                    f.write(struct.pack(">I", 5))
+            elif jstate == "needs recovery":
+                open(dat, "wb").write(b"C13".ljust(bs, b"#") * 2)
+                e2v.sh([T("debugfs/debugfs"), "-w", "-f", "-", fsimg], input=("jo -f %s\njw -b 5001,5002 %s\njc\n" % (jimg, dat)).encode(), env=env, timeout=60)
+            xinv = [("e2fsck -n -j", [T("e2fsck/e2fsck"), "-n", "-j", jimg, fsimg]), ("e2fsck -fn -j", [T("e2fsck/e2fsck"), "-fn", "-j", jimg, fsimg]),
+                    ("debugfs logdump -f", [T("debugfs/debugfs"), "-R", "logdump -f %s" % jimg, fsimg]), ("dumpe2fs (journal device)", [T("misc/dumpe2fs"), jimg]),
+                    ("dumpe2fs", [T("misc/dumpe2fs"), "-h", fsimg])]
+            for name, cmd in xinv:
+                b4 = (sha(fsimg), sha(jimg))
+                rc, out, ev = e2v.traced(cmd, fsimg, fsimg + ".trace", env=env, timeout=180, watch2=jimg)
+                nruns += 1
+                label = "external journal, %s, %dk blocks" % (jstate, bs // 1024)
+                dist[name] = dist.get(name, 0) + 1
+                res.case(label + "|" + name, True)
+                wfs = [e for e in ev if e[0] in ("W", "T", "A")]
+                wj = [e for e in ev if e[0] in ("w", "t", "a")]
+                why = None
+                if rc == -9:
+                    why = "timed out"
+                elif wfs:
+                    why = "%d write-class system calls on the filesystem file" % len(wfs)
+                elif wj:
+                    why = "%d write-class system calls on the journal device (first at byte %s)" % (len(wj), wj[0][1])
+                elif (sha(fsimg), sha(jimg)) != b4:
+                    why = "filesystem or journal device bytes changed"
+                elif any(e[1] & 3 for e in ev if e[0] in ("O", "o")):
+                    why = "a device was opened with access mode %s (model: O_RDONLY)" % [e[1] & 3 for e in ev if e[0] in ("O", "o")]
+                if why:
+                    bad.append({"state": label, "invocation": name, "cmd": " ".join(os.path.basename(c) if "/" in c else c for c in cmd), "why": why})
+            for f in (fsimg, jimg, dat, fsimg + ".trace"):
+                if os.path.exists(f):
+                    os.unlink(f)
     res.sample({"states": [s[0][:80] for s in states][:12]})
     res.sample({"invocations": list(dist.keys())})
     res.cov["correspondence"] = {"runs": nruns, "mismatches": len(bad),
                                  "compared": "access mode of every open of the target vs the model (O_RDONLY), absence of write/pwrite/ftruncate/fallocate on it, sha256 before = after"}
     res.cov["oracle"] = {"evaluations": nruns, "failures": len(bad), "by_invocation": dist}
-    res.cov["rule"] = "image states (clean x feature sets, journal needing recovery, non-empty orphan list, MMP, quota, structured corruptions) x 21 read-only invocations; every pair is distinct and non-trivial"
+    res.cov["rule"] = "image states (clean x feature sets, journal needing recovery, non-empty orphan list, MMP, quota, structured corruptions) x 26 read-only invocations; filesystem + EXTERNAL journal device pairs (clean, s_errno set, needing recovery) x 5 invocations watching both files; every pair is distinct and non-trivial"
     res.add_obligation("no write-class call, unchanged bytes, read-only open mode on all runs", not bad)
     for b in bad[:3]:
         res.violation("oracle", b, signature="c13:%s:%s" % (b["invocation"], b["state"][:40]))
